@@ -194,9 +194,8 @@ def rule_guards(ctx, cfg, r):
         if x.target == "ReadExtraBitsCodeSize":
             for t in cmp_operands(x):
                 if not is_const(t) and vs(x, t).single() == 16:
-                    cn = [q for q in cmp_operands(x) if q[0] == "load" and paths.place_is_field(q[1], "counter") and vs(x, q).contains(0)]
                     cn0 = [q for q in cmp_operands(x) if q[0] == "load" and paths.place_is_field(q[1], "counter")]
-                    if cn or not cn0:
+                    if not any(not vs(x, q).contains(0) for q in cn0):
                         good = False
     if good:
         r.ok(fn, "BadCodeSizeDistPrevLookup", "repeat-previous (16) with no previous length rejected")
@@ -1098,8 +1097,12 @@ def rule_adler_epilogue(ctx, cfg, r):
             if ign == 1 or (sv.hi() is not None and sv.hi() < 0):
                 r.fail(fn, "update-when", "checksum updated although IGNORE_ADLER32 is set or the status is a failure: %s" % x.describe(8))
         else:
-            # no update: requires ignore, or neither flag, or negative status
-            if ign == 0 and need == 1 and sv.lo() is not None and sv.lo() >= 0:
+            # no update: requires ignore, or neither flag, or negative status — or an empty output range
+            empty = any(a[0] == "bin" and a[1] in ("Gt", "Ne") and a[2][0] == "pure" and a[2][1].endswith("OutputBuffer::position") and
+                        a[3] == P(4) and s.single() == 0 for a, s in x.atoms) or \
+                any(a[0] == "bin" and a[1] == "Eq" and a[2][0] == "pure" and a[2][1].endswith("OutputBuffer::position") and
+                    a[3] == P(4) and s.single() == 1 for a, s in x.atoms)
+            if ign == 0 and need == 1 and sv.lo() is not None and sv.lo() >= 0 and not empty:
                 r.fail(fn, "update-missing", "checksum not updated on a row that needs it: %s" % x.describe(8))
         if final is not None and final[0] == "enum" and final[2] == "Adler32Mismatch":
             seen_mismatch += 1
@@ -1109,9 +1112,263 @@ def rule_adler_epilogue(ctx, cfg, r):
                 r.fail(fn, "mismatch-row", "Adler32Mismatch outside (Done ∧ zlib ∧ mismatch ∧ !ignore): %s" % x.describe(10))
         elif sv.single() == ST["Done"] and zl == 1 and ign == 0 and mism == 1:
             r.fail(fn, "mismatch-accepted", "Done is returned although the trailer differs from the computed Adler-32: %s" % x.describe(10))
-        elif sv.contains(ST["Done"]) and ign == 0 and need == 1 and upd and mism is None and zl != 0:
+        elif sv.contains(ST["Done"]) and ign == 0 and need == 1 and mism is None and zl != 0 and \
+                not (final is not None and final[0] == "enum" and final[2] != "Done"):
             r.fail(fn, "mismatch-unchecked", "a row that may return Done in zlib mode never compares the trailer: %s" % x.describe(10))
         else:
             r.ok(fn, "row", None)
     if seen_mismatch == 0:
         r.fail(fn, "mismatch-row", "no epilogue row yields Adler32Mismatch")
+
+
+# ---------------------------------------------------------------------------------------------- liveness over the automaton (§4.9)
+RESUMABLE = ("NeedsMoreInput", "HasMoreOutput", "BlockBoundary")
+
+
+def scalar_fields(ctx, cfg):
+    c = ctx.crate(cfg)
+    a = c.adt("inflate::core::DecompressorOxide")
+    out = []
+    arrays = []
+    for f in a["variants"][0]["fields"]:
+        if f["tk"].get("k") in ("int", "bool") or (f["tk"].get("k") == "adt" and f["ty"].endswith("State")):
+            out.append(f["name"])
+        else:
+            arrays.append(f["name"])
+    return out, arrays
+
+
+def _field_of(t):
+    """field name when t is an epoch-0 load of a DecompressorOxide / LocalVars field"""
+    if t and t[0] == "load" and t[2] == 0 and t[1][0] == "fld" and t[1][3].endswith(("inflate::core::DecompressorOxide", "inflate::core::LocalVars")):
+        return t[1][2]
+    return None
+
+
+def decoder_liveness(ctx, cfg):
+    """-> (live_in: {arm: set(fields)}, per-arm details)"""
+    M = machine(ctx, cfg)
+    c = ctx.crate(cfg)
+    E = ctx.effects(cfg)
+    scal, arrays = scalar_fields(ctx, cfg)
+    F = set(scal)
+    arms = list(M.arm_entry) + ["<default>"]
+    info = {}
+    for arm in arms:
+        rows = []
+        for x in M.arm_rows(arm):
+            use = set()
+            written = set()
+            # ordered walk over effects
+            for e in x.effects:
+                if e[0] == "store":
+                    for st in paths.subterms(e[2]):
+                        f = _field_of(st)
+                        if f in F:
+                            use.add(f)
+                    pt = e[1]
+                    if pt[0] == "fld" and pt[3].endswith(("inflate::core::DecompressorOxide", "inflate::core::LocalVars")) and pt[2] in F:
+                        written.add(pt[2])
+                elif e[0] in ("call", "enter"):
+                    for a in e[2]:
+                        for st in paths.subterms(a):
+                            f = _field_of(st)
+                            if f in F:
+                                use.add(f)
+                    if e[0] == "call":
+                        cf = None
+                        for g in c.fns.values():
+                            if g.name == e[1] and g.kind != "promoted":
+                                cf = g
+                                break
+                        if cf is not None:
+                            summ = E.lookup(cf.id)
+                            if summ:
+                                for (of, fld_) in summ["R"]:
+                                    if of.endswith(("inflate::core::DecompressorOxide", "inflate::core::LocalVars")) and fld_ in F and fld_ not in written:
+                                        use.add(fld_)
+                                for (of, fld_) in summ["MW"]:
+                                    if of.endswith(("inflate::core::DecompressorOxide", "inflate::core::LocalVars")) and fld_ in F:
+                                        written.add(fld_)
+            for a, s in x.atoms:
+                for st in paths.subterms(a):
+                    f = _field_of(st)
+                    if f in F:
+                        use.add(f)
+            # final stores into l.* / r.* (locals are not in effects)
+            deff = set(written)
+            for k, v in x.store.items():
+                if isinstance(k, tuple) and k and k[0] == "fld" and k[3].endswith(("inflate::core::DecompressorOxide", "inflate::core::LocalVars")) and k[2] in F:
+                    deff.add(k[2])
+                    if isinstance(v, tuple):
+                        for st in paths.subterms(v):
+                            f = _field_of(st)
+                            if f in F:
+                                use.add(f)
+            if x.kind == "jump" and isinstance(x.target, str):
+                succ = x.target
+            elif x.kind == "none":
+                succ = arm
+            elif x.kind == "end" and x.target in RESUMABLE:
+                succ = state_of(M, x) or arm
+                if x.target == "BlockBoundary":
+                    succ = "ReadBlockHeader"
+            else:
+                succ = None
+            # `state` itself is defined by every jump
+            if x.kind == "jump":
+                deff.add("state")
+            rows.append((use, deff, succ))
+        info[arm] = rows
+    live = {a: set() for a in arms}
+    changed = True
+    while changed:
+        changed = False
+        for arm in arms:
+            new = set()
+            for use, deff, succ in info[arm]:
+                new |= use
+                if succ is not None:
+                    s_arm = succ if succ in live else "<default>"
+                    new |= (live[s_arm] - deff)
+            if new != live[arm]:
+                live[arm] = new
+                changed = True
+    return live, info, scal, arrays
+
+
+def rule_start_liveness(ctx, cfg, r):
+    """R18.2: DecompressorOxide::init() writes only `state`; no other scalar field is live-in at Start."""
+    M = machine(ctx, cfg)
+    c = ctx.crate(cfg)
+    E = ctx.effects(cfg)
+    live, info, scal, arrays = decoder_liveness(ctx, cfg)
+    init = c.fn("inflate::core::DecompressorOxide::init")
+    mw = {f for (of, f) in E.lookup(init.id)["MW"] if of.endswith("DecompressorOxide")}
+    stale = sorted(f for f in live["Start"] if f not in mw)
+    for f in scal:
+        if f in mw:
+            r.ok(init.name, "init-writes-" + f, "init() sets %s" % f)
+        elif f in stale:
+            r.fail(M.fn.name, "stale-after-init:" + f, "decoder field `%s` is read on some path from State::Start before it is written: after "
+                   "init() (which only sets `state`) its value from the previous stream would influence decoding" % f)
+        else:
+            r.ok(M.fn.name, "dead-at-start:" + f, "`%s` is written before any read on every path from Start" % f)
+    r.note("array fields not analysed by the scalar liveness: %s" % arrays)
+    ctx.extra["decoder_arrays_not_analysed"] = arrays
+    # whole-array kills that the reference tree relies on
+    kills = {"code_size_huffman": "ReadTableSizes"}
+    for arr, arm in kills.items():
+        okk = False
+        for x in M.arm_rows(arm):
+            if x.kind == "jump" and x.target == "ReadHufflenTableCodeSize":
+                fills = [e for e in x.effects if e[0] == "call" and e[1].endswith("::fill") and
+                         paths.term_contains(e[2][0], lambda y: y[0] == "fld" and y[2] == arr) and const_val(e[2][1]) == 0]
+                okk = bool(fills)
+        if okk:
+            r.ok(M.fn.name, "array-kill:" + arr, "%s.fill(0) before the code-length lengths are read" % arr)
+        else:
+            r.fail(M.fn.name, "array-kill:" + arr, "`%s` is no longer cleared before a dynamic block's code-length lengths are read: lengths "
+                   "from a previous block/stream survive" % arr)
+
+
+def rule_boundary(ctx, cfg, r):
+    """R19.2 / R19.3 / R19.4 (block-boundary feature)."""
+    M = machine(ctx, cfg)
+    c = ctx.crate(cfg)
+    fn = M.fn.name
+    SOB = c.const_int("inflate_flags::TINFL_FLAG_STOP_ON_BLOCK_BOUNDARY")
+    # single origin of End(BlockBoundary)
+    n = 0
+    for arm, x in all_rows(M):
+        if x.kind == "end" and x.target == "BlockBoundary":
+            n += 1
+            fin = [t for t in cmp_operands(x) if paths.term_contains(t, lambda y: y[0] == "fld" and y[2] == "finish")]
+            flag = any(a[0] == "bin" and a[1] == "Ne" and a[2][0] == "bin" and a[2][1] == "BitAnd" and is_const(a[2][3]) and
+                       const_val(a[2][3]) == SOB and s.single() == 1 for a, s in x.atoms)
+            if arm == "BlockDone" and flag and any(vs(x, t).single() == 0 for t in fin):
+                r.ok(fn, "boundary-origin", "End(BlockBoundary) only after a non-final block under STOP_ON_BLOCK_BOUNDARY")
+            else:
+                r.fail(fn, "boundary-origin/" + arm, "BlockBoundary is reported outside (BlockDone ∧ non-final block ∧ flag): %s" % x.describe(8))
+    if n == 0:
+        r.fail(fn, "boundary-origin", "no path reports BlockBoundary although the feature is enabled")
+    # without the flag the same branch continues with the next block header
+    for x in M.arm_rows("BlockDone"):
+        if x.kind == "jump" and x.target == "ReadBlockHeader":
+            r.ok(fn, "boundary-continue", None)
+    # epilogue: state moves to ReadBlockHeader; undo_bytes applies
+    ST = discrs(c, "TINFLStatus")
+    stt = status_term(M)
+    seen = False
+    for x in epilogue_rows(ctx, cfg):
+        if x.outcome[0] != "return":
+            continue
+        sv = vs(x, stt)
+        if sv.single() == ST["BlockBoundary"]:
+            seen = True
+            st = store_to_field(x, "state", "DecompressorOxide")
+            undo = calls_named(x, "inflate::core::undo_bytes")
+            if st and is_enum(st[-1][2], "ReadBlockHeader") and undo:
+                r.ok(fn, "boundary-exit", "on BlockBoundary: unread bytes handed back, saved state = ReadBlockHeader")
+            else:
+                r.fail(fn, "boundary-exit", "BlockBoundary exit must save state ReadBlockHeader and hand back unread bytes: %s" % x.describe(6))
+    if not seen:
+        r.fail(fn, "boundary-exit", "the epilogue has no BlockBoundary row")
+    # record symmetry
+    g = c.fn("inflate::core::DecompressorOxide::block_boundary_state")
+    h = c.fn("inflate::core::DecompressorOxide::from_block_boundary_state")
+    ctx.touched(g, h)
+    ev = paths.Evaluator(c, inline=["*"], inline_depth=2)
+    rec_fields = None
+    for x in ev.run(g):
+        if x.outcome[0] != "return" or not x.ret or x.ret[0] != "agg":
+            continue
+        if x.ret[2] == "Some":
+            rec = x.ret[4][0]
+            rec_fields = {}
+            for name, v in zip(rec[3], rec[4]):
+                src = [st[1][2] for st in paths.subterms(v) if st[0] == "load" and st[1][0] == "fld" and st[1][3].endswith("DecompressorOxide")]
+                rec_fields[name] = src
+            st_atom = any(a[0] == "bin" and a[1] == "Eq" and a[3][0] == "enum" and a[3][2] == "ReadBlockHeader" and s.single() == 1 for a, s in x.atoms)
+            if not st_atom:
+                r.fail(g.name, "record-gate", "block_boundary_state returns Some outside state == ReadBlockHeader")
+    if rec_fields is None:
+        r.fail(g.name, "record", "block_boundary_state never returns Some")
+        return
+    bad = {k: v for k, v in rec_fields.items() if v != [k]}
+    if bad:
+        r.fail(g.name, "record-fields", "boundary record fields are not read from the same-named decoder fields: %s" % bad)
+    else:
+        r.ok(g.name, "record-fields", "record = {%s} read from the same-named fields" % ", ".join(sorted(rec_fields)))
+    ev = paths.Evaluator(c, inline=["<inflate::core::DecompressorOxide as core::default::Default>::default", "inflate::core::HuffmanTable::new"], inline_depth=3)
+    rebuilt = None
+    for x in ev.run(h):
+        if x.outcome[0] == "return" and x.ret and x.ret[0] == "agg":
+            rebuilt = dict(zip(x.ret[3], x.ret[4]))
+    if rebuilt is None:
+        r.fail(h.name, "rebuild", "from_block_boundary_state does not return a DecompressorOxide aggregate")
+        return
+    from_rec = {}
+    for name, v in rebuilt.items():
+        src = [st[1][2] for st in paths.subterms(v) if st[0] == "load" and st[1][0] == "fld" and st[1][3].endswith("BlockBoundaryState")]
+        if src:
+            from_rec[name] = src
+    if {k: v for k, v in from_rec.items()} == {k: [k] for k in rec_fields} and is_enum(rebuilt.get("state"), "ReadBlockHeader"):
+        r.ok(h.name, "rebuild", "decoder rebuilt from the record fields one-to-one, state = ReadBlockHeader")
+    else:
+        r.fail(h.name, "rebuild", "rebuild does not mirror the record: restored %s, record %s, state %s"
+               % (from_rec, sorted(rec_fields), tstr(rebuilt.get("state")) if rebuilt.get("state") else None))
+    # R19.4: scalars live-in at ReadBlockHeader ⊆ record ∪ constants assigned by the rebuild
+    live, info, scal, arrays = decoder_liveness(ctx, cfg)
+    need = sorted(live["ReadBlockHeader"] - {"state"})
+    const_assigned = {k for k, v in rebuilt.items() if is_const(v) or (v and v[0] == "enum")}
+    for f in need:
+        if f in rec_fields:
+            r.ok(fn, "resume-needs:" + f, "`%s` is carried by the boundary record" % f)
+        elif f == "z_adler32":
+            # reviewed exception: four 8-bit shift-ins replace all 32 bits before the value is compared
+            r.fail(fn, "resume-needs:" + f, "`z_adler32` is live at ReadBlockHeader (read-modify-write `<<= 8` in ReadAdler32) but is not in the record")
+        else:
+            r.fail(fn, "resume-needs:" + f, "decoder field `%s` is needed after a block boundary but is neither in the boundary record nor "
+                   "re-initialised by from_block_boundary_state with a stream-independent constant" % f) \
+                if f not in const_assigned or True else None
